@@ -44,7 +44,8 @@ ASSUMPTIONS = ['shapes (pixels of a disc/polygon at a level) come from the same 
                'judges those; independent here: level arithmetic, set algebra, normal form, cache, area',
                'aegmon/refs/healset.py nested arithmetic, cross-checked against healpy pix2vec/vec2pix at start-up',
                'probe directions are centres of descendants 2-3 levels below the region depth, so membership never '
-               'hinges on a floating-point tie', 'driven single-threaded']
+               'hinges on a floating-point tie; exact seam positions (poles, ra 0/360, equator, pixel corners) are '
+               'judged only where every cell touching the position has the same membership in the model', 'driven single-threaded']
 MIN_REACH = {'regions:Region.union': 1, 'regions:Region.without': 1, 'regions:Region.intersect': 1,
              'regions:Region.symmetric_difference': 1, 'regions:Region.sky_within': 1, 'regions:Region.get_demoted': 1,
              'regions:Region.get_area': 1, 'regions:Region._renorm': 1, 'regions:Region._demote_all': 1,
@@ -57,7 +58,9 @@ MIN_COUNTERS = {'invariant_evaluated': 2000, 'steps_judged': 2000, 'probe_clones
                 'combine_regions_judged': 3, 'exhaustive_sequences': 1000,
                 'op_union_renorm_false': 100, 'op_add_pixels_renorm_false': 50,
                 'union_renorm_false_with_coarse_pixels_after_query': 5,
-                'renorm_false_add_pixels_coarse_after_query': 5}
+                'renorm_false_add_pixels_coarse_after_query': 5,
+                'seam_probes_judged': 50000, 'pole_probes_judged': 10000, 'pole_probes_expected_inside': 500,
+                'seam_probes_expected_inside': 2000, 'pole_scalar_calls': 20}
 BATCH_TIMEOUT = 1500
 
 AREA_RTOL = 1e-9        # float summation over <= 12 levels; the statement says "exactly", sets are compared exactly
@@ -321,6 +324,71 @@ class History:
         exp = np.array([int(p) in mem for p in deep], dtype=bool)
         return ra, dec, exp
 
+    def seams(self, s, unit, count=True):
+        """Exact seam positions, in the unit the call will use ('rad' or 'deg'): the poles dec = +-90 at several RA,
+        ra = 0 / 360 / -0.0, the equator, base-face corners, and corners of member and non-member pixels.
+        A position is judged only where the answer is determined: the cell healpy assigns to the very floats the
+        region will compute, and the cells of eight positions 1e-8 rad around it (at a pole: the four polar cells),
+        must all have the same membership in the model; otherwise it is dropped and counted as undetermined.
+        -> (ra, dec, expected) in `unit`"""
+        import healpy as hp
+        M = s.depth
+        mem = s.model
+        rng = self.prng
+        q = np.pi / 2
+        pts = [(0.0, q), (q / 2, q), (3 * q / 2, q), (5 * q / 2, q), (7 * q / 2, q), (4 * q, q), (-0.0, q), (q, q),
+               (0.0, -q), (q / 2, -q), (3 * q / 2, -q), (5 * q / 2, -q), (7 * q / 2, -q), (4 * q, -q), (2 * q, -q),
+               (0.0, 0.0), (4 * q, 0.0), (-0.0, 0.0), (q, 0.0), (2 * q, 0.0), (3 * q, -0.0), (q / 2, 0.0),
+               (0.0, np.arcsin(2.0 / 3)), (4 * q, -np.arcsin(2.0 / 3)), (q, np.arcsin(2.0 / 3)), (0.0, q / 3)]
+        if unit == 'deg':
+            pts = [(0.0, 90.0), (45.0, 90.0), (135.0, 90.0), (225.0, 90.0), (315.0, 90.0), (360.0, 90.0), (-0.0, 90.0),
+                   (90.0, 90.0), (0.0, -90.0), (45.0, -90.0), (135.0, -90.0), (225.0, -90.0), (315.0, -90.0),
+                   (360.0, -90.0), (180.0, -90.0), (0.0, 0.0), (360.0, 0.0), (-0.0, 0.0), (90.0, 0.0), (180.0, 0.0),
+                   (270.0, -0.0), (45.0, 0.0), (0.0, 30.0), (360.0, -30.0), (90.0, 30.0), (0.0, 41.8103148957786)]
+        ra = np.array([p[0] for p in pts], dtype=float)
+        dec = np.array([p[1] for p in pts], dtype=float)
+        # corners of a few member pixels and of a few others (exactly on cell boundaries, up to rounding)
+        some = list(itertools.islice(iter(mem), 0, 500))
+        pick = [some[int(x)] for x in rng.integers(0, len(some), min(3, len(some)))] if some else []
+        pick += [int(x) for x in rng.integers(0, hs.npix(M), 2)] + [0, hs.npix(M) - 1]
+        for p in pick:
+            th, ph = hp.vec2ang(np.array(hp.boundaries(2 ** M, int(p), step=1, nest=True)).T)
+            d = np.pi / 2 - th
+            keep = (np.abs(d) < 1.57) | (np.abs(d) == np.pi / 2)
+            if unit == 'deg':
+                ra = np.append(ra, np.degrees(ph[keep]))
+                dec = np.append(dec, np.degrees(d[keep]))
+            else:
+                ra = np.append(ra, ph[keep])
+                dec = np.append(dec, d[keep])
+        # the floats the region computes
+        if unit == 'deg':
+            th, ph = np.pi / 2 - np.radians(dec), np.radians(ra)
+        else:
+            th, ph = np.pi / 2 - dec, ra.copy()
+        inrange = (th >= 0) & (th <= np.pi)
+        ra, dec, th, ph = ra[inrange], dec[inrange], th[inrange], ph[inrange]
+        e = 1e-8
+        votes = []
+        for dt in (-e, 0.0, e):
+            for dp in (-e, 0.0, e):
+                votes.append(hp.ang2pix(2 ** M, np.clip(th + dt, 0, np.pi), ph + dp, nest=True))
+        for quad in (0.7, 2.3, 3.9, 5.5):           # at a pole the point belongs to the four polar cells
+            votes.append(np.where(th <= e, hp.ang2pix(2 ** M, e, quad, nest=True),
+                                  np.where(th >= np.pi - e, hp.ang2pix(2 ** M, np.pi - e, quad, nest=True), votes[4])))
+        votes = np.array(votes)
+        inside = np.array([[int(c) in mem for c in row] for row in votes.T], dtype=bool).reshape(len(th), -1)
+        det = inside.all(axis=1) | (~inside).all(axis=1)
+        exp = inside[:, 0][det] if len(th) else np.zeros(0, dtype=bool)
+        if count:
+            pole = (np.abs(th[det]) == 0) | (th[det] == np.pi)
+            self.o.count('seam_probes_judged', int(det.sum()))
+            self.o.count('seam_probes_undetermined', int((~det).sum()))
+            self.o.count('pole_probes_judged', int(pole.sum()))
+            self.o.count('pole_probes_expected_inside', int((pole & exp).sum()))
+            self.o.count('seam_probes_expected_inside', int(exp.sum()))
+        return ra[det], dec[det], exp
+
     # ------------------------------------------------------------------ judging
     def drain_events(self, rec, in_combine=None):
         ev, _Mon.events = _Mon.events, []
@@ -424,6 +492,10 @@ class History:
             return
         # ---- what would the region answer now?  asked of a clone
         ra, dec, expw = self.probes(s)
+        n0 = len(expw)
+        sra, sdec, sexp = self.seams(s, 'rad')
+        dra, ddec, dexp = self.seams(s, 'deg')
+        ra, dec, expw = np.append(ra, sra), np.append(dec, sdec), np.append(expw, sexp)
         model_area = hs.set_area(len(s.model), s.depth)
         with muted():
             c = copy.deepcopy(r)
@@ -433,7 +505,8 @@ class History:
                 d0 = c.get_demoted()
                 d0l, d0f = hs.to_levels({s.depth: set(d0)})
                 a1 = c.get_area()
-                w1 = np.array(c.sky_within(np.degrees(ra), np.degrees(dec), degin=True))
+                w1 = np.array(c.sky_within(np.append(np.degrees(ra[:n0]), dra), np.append(np.degrees(dec[:n0]), ddec),
+                                           degin=True))
                 lv2, fr2, pr2 = check_invariant(c)
             except Exception as e:
                 self.violate('raises', {'exc_type': type(e).__name__, 'exc': repr(e)[:300],
@@ -441,7 +514,7 @@ class History:
                 self.dead = True
                 return
         o.count('probe_clones')
-        o.count('sky_within_probes_judged', 2 * len(expw))
+        o.count('sky_within_probes_judged', len(expw) + len(w1))
         tol = AREA_RTOL * max(model_area, 1e-30)
         if not s.optout:
             o.worst('area_rel_err', abs(a0 - model_area) / model_area if model_area > 0 else abs(a0))
@@ -464,9 +537,16 @@ class History:
             o.count('query_changed_area')
             self.violate('probe_query_changes_area', {'area_before_queries': a0, 'area_after_queries': a1,
                                                       'model_area': model_area}, rec, i)
-        if not np.array_equal(w1, w0):
-            self.violate('probe_query_changes_membership', {'n_changed': int((w1 != w0).sum()),
+        if not np.array_equal(w1[:n0], w0[:n0]):
+            self.violate('probe_query_changes_membership', {'n_changed': int((w1[:n0] != w0[:n0]).sum()),
                                                             'stale_before_op': stale_before}, rec, i)
+            bad = True
+        if not np.array_equal(w1[n0:], dexp):
+            j = int(np.flatnonzero(w1[n0:] != dexp)[0])
+            self.violate('probe_sky_within', {'ra_dec_deg': [dra[j], ddec[j]], 'degin': True, 'exact_seam_position': True,
+                                              'sky_within': bool(w1[n0 + j]), 'model': bool(dexp[j]),
+                                              'n_wrong': int((w1[n0:] != dexp).sum()), 'stale_before_op': stale_before},
+                         rec, i)
             bad = True
         if fr2 or any(p['kind'] != 'ancestor_and_descendant_stored' for p in pr2):
             self.violate('id_not_integer' if fr2 else 'id_out_of_range',
@@ -614,7 +694,29 @@ class History:
                 dec = np.append(dec, [0.1, np.nan])
                 expw = np.append(expw, [False, False])
                 ok, res = self.subject(rec, i, r.sky_within, ra, dec)
+            elif form in ('seams_rad', 'seams_deg'):
+                # exact poles / seams, as a vector together with ordinary interior positions
+                unit = form[-3:]
+                sra, sdec, sexp = self.seams(s, unit)
+                if unit == 'deg':
+                    ra, dec = np.degrees(ra), np.degrees(dec)
+                ra, dec, expw = np.append(sra, ra), np.append(sdec, dec), np.append(sexp, expw)
+                ok, res = self.subject(rec, i, r.sky_within, list(ra), list(dec), unit == 'deg')
+            elif form in ('pole_scalar_rad', 'pole_scalar_deg'):
+                unit = form[-3:]
+                sra, sdec, sexp = self.seams(s, unit)
+                polar = np.flatnonzero(np.abs(sdec) == (90.0 if unit == 'deg' else np.pi / 2))
+                if polar.size == 0:
+                    o.count('pole_scalar_undetermined')
+                    ok, res, expw = True, np.zeros(0, dtype=bool), np.zeros(0, dtype=bool)
+                else:
+                    j = int(polar[int(self.prng.integers(0, polar.size))])
+                    o.count('pole_scalar_calls')
+                    ok, res = self.subject(rec, i, r.sky_within, float(sra[j]), float(sdec[j]), unit == 'deg')
+                    expw = sexp[j:j + 1]
             else:
+                sra, sdec, sexp = self.seams(s, 'rad')
+                ra, dec, expw = np.append(ra, sra), np.append(dec, sdec), np.append(expw, sexp)
                 ok, res = self.subject(rec, i, r.sky_within, ra, dec)
             s.queried = True
             if ok:
@@ -846,7 +948,9 @@ def run_random(case, o, workdir, length=None, return_history=False):
     h = History(o, workdir, rng_for(*(list(case['seed']) + ['probes'])))
     # anchor: sometimes at a pole or on the RA=0 meridian
     u = rng.random()
-    if u < 0.1:
+    if u < 0.05:
+        anchor = (float(rng.uniform(0, 2 * np.pi)), float(rng.choice([-1, 1]) * np.pi / 2))      # exactly a pole
+    elif u < 0.15:
         anchor = (float(rng.uniform(0, 2 * np.pi)), float(rng.choice([-1, 1]) * (np.pi / 2 - rng.uniform(0, 2) * _resol(M))))
     elif u < 0.25:
         anchor = (float(rng.uniform(-1, 1) * _resol(M) % (2 * np.pi)), float(np.arcsin(rng.uniform(-0.9, 0.9))))
@@ -886,7 +990,8 @@ def run_random(case, o, workdir, length=None, return_history=False):
             q = rng.choice(['sky_within', 'get_demoted', 'get_area'])
             rec = {'op': str(q), 't': t}
             if q == 'sky_within':
-                rec['form'] = str(rng.choice(['array', 'array', 'deg', 'scalar', 'nan']))
+                rec['form'] = str(rng.choice(['array', 'array', 'deg', 'scalar', 'nan', 'seams_rad', 'seams_deg',
+                                              'pole_scalar_rad', 'pole_scalar_deg']))
             if q == 'get_area':
                 rec['degrees'] = bool(rng.random() < 0.7)
         else:
@@ -994,6 +1099,34 @@ TARGETED = {
         {'op': 'add_pixels', 't': 0, 'pix': [1600, 25], 'depth': 4, 'optout': True},     # 1600@4 lies inside 100@2
         {'op': 'get_area', 't': 0}, {'op': 'sky_within', 't': 0},
         {'op': 'without', 't': 0, 'o': 1}, {'op': 'get_demoted', 't': 0}, {'op': 'get_area', 't': 0}]},
+    # regions that own the polar cells, queried at the exact poles and seams (scalar, vector, radians, degrees)
+    'polar_caps_and_seams': {'depth': 5, 'pool': [5, 5, 5], 'ops': [
+        {'op': 'add_circles', 't': 0, 'ra': [0.3], 'dec': [np.pi / 2], 'r': [0.2]},
+        {'op': 'sky_within', 't': 0, 'form': 'seams_deg'}, {'op': 'sky_within', 't': 0, 'form': 'seams_rad'},
+        {'op': 'sky_within', 't': 0, 'form': 'pole_scalar_deg'}, {'op': 'sky_within', 't': 0, 'form': 'pole_scalar_rad'},
+        {'op': 'add_circles', 't': 0, 'ra': [2.0], 'dec': [-np.pi / 2], 'r': [0.3]},
+        {'op': 'sky_within', 't': 0, 'form': 'seams_deg'}, {'op': 'sky_within', 't': 0, 'form': 'pole_scalar_deg'},
+        {'op': 'sky_within', 't': 0, 'form': 'pole_scalar_rad'},
+        {'op': 'add_pixels', 't': 1, 'pix': list(range(48)), 'depth': 1, 'renorm': True},
+        {'op': 'sky_within', 't': 1, 'form': 'seams_deg'}, {'op': 'sky_within', 't': 1, 'form': 'seams_rad'},
+        {'op': 'sky_within', 't': 1, 'form': 'pole_scalar_deg'},
+        {'op': 'without', 't': 1, 'o': 0}, {'op': 'sky_within', 't': 1, 'form': 'seams_deg'},
+        {'op': 'sky_within', 't': 1, 'form': 'pole_scalar_rad'},
+        # the four deepest cells that touch each pole
+        {'op': 'add_pixels', 't': 2, 'pix': [1023, 2047, 3071, 4095, 8192, 9216, 10240, 11264], 'depth': 5, 'renorm': True},
+        {'op': 'sky_within', 't': 2, 'form': 'seams_deg'}, {'op': 'sky_within', 't': 2, 'form': 'pole_scalar_deg'},
+        {'op': 'sky_within', 't': 2, 'form': 'pole_scalar_rad'}, {'op': 'get_demoted', 't': 2},
+        {'op': 'intersect', 't': 2, 'o': 0}, {'op': 'sky_within', 't': 2, 'form': 'seams_rad'},
+        {'op': 'sky_within', 't': 2, 'form': 'pole_scalar_deg'}]},
+    'polar_caps_and_seams_deep': {'depth': 8, 'pool': [8, 8], 'ops': [
+        {'op': 'add_circles', 't': 0, 'ra': [0.0, 1.0], 'dec': [np.pi / 2, -np.pi / 2], 'r': [0.01, 0.02]},
+        {'op': 'sky_within', 't': 0, 'form': 'seams_deg'}, {'op': 'sky_within', 't': 0, 'form': 'pole_scalar_deg'},
+        {'op': 'sky_within', 't': 0, 'form': 'pole_scalar_rad'}, {'op': 'pickle', 't': 0},
+        {'op': 'sky_within', 't': 0, 'form': 'seams_rad'},
+        {'op': 'add_pixels', 't': 1, 'pix': [0, 1, 2, 3, 32, 33, 34, 35], 'depth': 1, 'renorm': True},
+        {'op': 'sky_within', 't': 1, 'form': 'seams_deg'}, {'op': 'sky_within', 't': 1, 'form': 'pole_scalar_deg'},
+        {'op': 'union', 't': 0, 'o': 1}, {'op': 'sky_within', 't': 0, 'form': 'pole_scalar_rad'},
+        {'op': 'sky_within', 't': 0, 'form': 'seams_deg'}]},
     # bare coarse insertion over existing content (parent of stored pixels), no query before
     'coarse_over_content': {'depth': 4, 'pool': [4], 'ops': [
         {'op': 'add_pixels', 't': 0, 'pix': [1600, 1601, 1700], 'depth': 4, 'renorm': True},
